@@ -980,7 +980,10 @@ func compareLogicXEQ(left r.Element, right r.Element) (bool, error) {
 				if err != nil {
 					return false, err
 				}
-				return cmpVal, nil
+				// every entry has to match - not only the first one visited
+				if !cmpVal {
+					return false, nil
+				}
 			}
 			return true, nil
 		}
